@@ -1,7 +1,8 @@
 Require Extraction.
 Require Import ExtrOcamlBasic.
-From Pygls Require Import Model.Caps Spec.CapsSpec.
+From Pygls Require Import Model.Features Model.Caps Model.CapsHistory Spec.CapsSpec Spec.CapsHistorySpec.
 Extraction Language OCaml.
 Extraction "../ocaml/gen/c12_model.ml"
   all_fields field_code config_of fileop_table build observe lsp_initialize with_builtins
-  spec_caps spec_workspace_encoding guard klass method_of_code method_code.
+  spec_caps spec_workspace_encoding guard klass method_of_code method_code
+  cfg_of_history spec_cfg_of_history results empty_registry drv_nm drv_cid drv_ops default_obj.
